@@ -77,7 +77,7 @@ def periodic_and_coarse(prop, tier, seed):
     return dict(bounded=_merge(b1, b2))
 
 
-@provider('C14', 'C04')
+@provider('C14', 'C04', 'C01')
 def split(prop, tier, seed):
     rng = random.Random(seed)
     cases = [dict(hours=h, freq=f, interval='d', storage=st, orderbook=rng.choice([None, 'last', 'first']), pseed=rng.randint(0, 999))
@@ -97,9 +97,9 @@ def fix_window(prop, tier, seed):
     for T in (12, 18):
         for windows in ([(0, 5)], [(3, 7)], [(2, 5), (9, 12)], [(0, 2), (6, 8)]):
             for transport in (False, True):
-                cases.append(dict(T=T, windows=windows, transport=transport, eff=rng.choice([1., 0.9]), newprices=rng.random() < 0.5, pseed=rng.randint(0, 999)))
+                cases.append(dict(T=T, windows=windows, transport=transport, multistep=rng.random() < .6, eff=rng.choice([1., 0.9]), newprices=rng.random() < 0.5, pseed=rng.randint(0, 999)))
     rng.shuffle(cases)
-    return dict(bounded=run_cases(sc.check_fix_window, cases[:_n(tier, 10, 16)], 'fix_time_window with prefix / interior / gapped index masks, with and without multi-row variables (transport)',
+    return dict(bounded=run_cases(sc.check_fix_window, cases[:_n(tier, 10, 16)], 'fix_time_window with prefix / interior / gapped index masks, with and without multi-row variables (transport) and variables spanning several steps (own coarser frequency, periodicity)',
                                   'grids of 12-18 steps', 60 if tier == 'quick' else 300))
 
 
@@ -224,8 +224,8 @@ def stochastic(prop, tier, seed):
     cases = []
     for _ in range(_n(tier, 8, 40)):
         T = rng.randint(4, 8)
-        cases.append(dict(T=T, k=rng.randint(1, T - 1), S=rng.randint(1, 3), transport=rng.random() < .5, identical=rng.random() < .25, seed=rng.randint(0, 99999)))
-    b1 = run_cases(sc.check_slp, cases, 'make_slp on storage portfolios (optionally with a multi-row transport) with 1-3 sampled futures sharing the present prices: block structure, cost scaling, EEV <= V_slp <= mean of scenario optima, = deterministic optimum for identical scenarios',
+        cases.append(dict(T=T, k=rng.randint(1, T - 1), S=rng.randint(1, 3), transport=rng.random() < .5, internal=rng.random() < .5, identical=rng.random() < .25, seed=rng.randint(0, 99999)))
+    b1 = run_cases(sc.check_slp, cases, 'make_slp on storage portfolios (optionally with a multi-row transport and with a structured asset whose internal variables are not of dispatch type) with 1-3 sampled futures sharing the present prices: block structure, cost scaling, EEV <= V_slp <= mean of scenario optima, = deterministic optimum for identical scenarios',
                    'hourly grids of 4-8 steps, present/future boundary anywhere', 50 if tier == 'quick' else 300)
     b2 = run_cases(sc.check_robust, cases[:_n(tier, 6, 30)], 'robust target over the cost vectors of 2-4 scenarios: worst case of the robust solution vs single-scenario solutions and vs the smallest scenario optimum',
                    'same portfolios', 30 if tier == 'quick' else 200)
@@ -312,3 +312,25 @@ def permutations(prop, tier, seed):
     cases = [dict(T=rng.choice([4, 6, 8]), seed=rng.randint(0, 99999), trials=3) for _ in range(_n(tier, 12, 80))]
     return dict(bounded=run_cases(sc.check_permutation, cases, 'random portfolios of 4-7 assets (incl. two assets with their own coarser frequency, the same window and different waccs; order book; transport) built from fresh objects under 3 random permutations x naming schemes (descriptive / numeric with prefixes 1, 22, 333 / a, a_a, a_a_a; nodes 1 and 11): same optimal value',
                                   'hourly grids of 4-8 steps', 50 if tier == 'quick' else 300))
+
+
+@provider('C13', 'C07')
+def periodic_kinds(prop, tier, seed):
+    rng = random.Random(seed + 67)
+    cases = [dict(kind=k, duration=d, freq=f, days=days, first=rng.random() < .5, seed=rng.randint(0, 9999))
+             for k in ('simple', 'spread', 'transport', 'multi') for d in (None, '2d') for (f, days) in (('6h', 4), ('4h', 5))]
+    rng.shuffle(cases)
+    b = run_cases(sc.check_periodic_kinds, cases[:_n(tier, 12, 16)], 'periodic assets of four kinds (one / two variables per step, one / several mapping rows per variable) x with / without periodicity_duration 2d x grids 6h/4d, 4h/5d (partial last duration): well-formed problem stand-alone and in a portfolio; optimum = non-periodic portfolio + equalities (scipy/HiGHS); reported dispatch repeats',
+                  'grids of 16-30 steps', 50 if tier == 'quick' else 200)
+    b['failures'] = [f for f in b['failures'] if f['name'].startswith(prop) or f.get('error')]
+    return dict(bounded=b)
+
+
+@provider('C13')
+def coarse_kinds(prop, tier, seed):
+    rng = random.Random(seed + 71)
+    cases = [dict(kind=k, first=rng.random() < .5, seed=rng.randint(0, 9999), **c) for k in ('simple', 'spread', 'transport', 'multi')
+             for c in (dict(hours=24, coarse='4h'), dict(hours=30, coarse='6h'), dict(dst=True, hours=0, coarse='W'))]
+    rng.shuffle(cases)
+    return dict(bounded=run_cases(sc.check_coarse_kinds, cases[:_n(tier, 12, 12)], 'assets of four kinds on a coarser frequency than the portfolio (4h / 6h on hourly grids incl. a partial last interval; weekly on a daily CET grid over the DST switch): set-up succeeds, well-formed, constant rate within each coarse interval, transport efficiency per fine step, optimum = fine portfolio + equalities (uniform grids)',
+                                  'grids of 14-30 steps', 50 if tier == 'quick' else 200))
